@@ -1,6 +1,6 @@
 (* Properties/C15.v — "BoxBytes always owns exactly the bytes and the layout it reports". *)
 From Coq Require Import NArith List Bool String.
-From BM Require Import Base.Outcome Base.Prims Base.Own Base.Layout Model.Alloc Proofs.AllocProofs Proofs.AllocGen.
+From BM Require Import Base.Outcome Base.Prims Base.Own Base.Layout Model.Alloc Proofs.AllocProofs Proofs.AllocGenBytes.
 From BM.Gen Require Alloc.
 Import ListNotations.
 Open Scope N_scope.
